@@ -4,6 +4,7 @@ erasure equality, importability and behaviour; TLC validates against MTApplyTrac
 import ast
 import concurrent.futures
 import copy
+import difflib
 import importlib
 import io
 import itertools
@@ -333,7 +334,7 @@ def run_case(case):
     importlib.invalidate_caches()
     rec = {"tid": case["tid"], "overwrite": case["overwrite"], "confine": case["confine"], "failed": False, "parses": True,
            "erasure": True, "idempotent": True, "importable": True, "behaviour": True, "future_first": True,
-           "src_imports": [], "res_imports": [], "stub_imports": [], "positions": [], "err": "", "stub": "", "res": ""}
+           "src_imports": [], "res_imports": [], "stub_imports": [], "positions": [], "err": "", "stub": "", "res": "", "idem_delta": ""}
     try:
         mod = importlib.import_module(name)
         k = case["k"]
@@ -362,6 +363,16 @@ def run_case(case):
             return rec
         rec["res"] = res[:2500]
         rec["idempotent"] = res2 == res
+        if res2 != res:      # what the second application changed (narrows the recorded finding)
+            a, b = res.splitlines(), res2.splitlines()
+            delta = list(difflib.ndiff(a, b))
+            changed = [ln[2:].strip() for ln in delta if ln[:2] in ("+ ", "- ")]
+            if res2.startswith("<second apply raised NameError: name 'TypedDict' is not defined"):
+                rec["idem_delta"] = "second_application_raised_NameError_TypedDict"
+            elif all(ln in ("", "pass", "if TYPE_CHECKING:") or ln.split(" ")[0] in ("from", "import") for ln in changed):
+                rec["idem_delta"] = "import_block_lines_only"
+            else:
+                rec["idem_delta"] = "other"
         try:
             rt = ast.parse(res)
         except SyntaxError as e:
@@ -535,6 +546,7 @@ def signature(clause, rec, case):
         sig["typeddict_import_confined"] = any(j["block"] == "tc" and j["name"] == "TypedDict" and j["runtime"] for j in rec["res_imports"])
     if clause == "Idempotent":
         sig["overwrite"] = case["overwrite"]
+        sig["second_application_adds"] = rec.get("idem_delta", "")
     if clause == "ApplyFails":
         sig["err"] = rec["err"][:80]
     return sig
